@@ -109,6 +109,25 @@ func (x *Exec) bodyEnv(fr *Frame, n *Node, st *State, at *ssa.BasicBlock) *Env {
 				}
 				return Term{}, false, fmt.Errorf("iterpos used outside a range-over-string loop")
 			}
+			if strings.HasPrefix(name, "range") && isDigits(name[5:]) {
+				// rangeN: the slice that range loop N iterates over (evaluated once, before the loop)
+				k, _ := strconv.Atoi(name[5:])
+				if k >= 1 && k <= len(fr.loops.headers) {
+					for _, in := range fr.loops.headers[k-1].Instrs {
+						if b, ok := in.(*ssa.BinOp); ok && b.Op == token.LSS {
+							if c, ok := b.Y.(*ssa.Call); ok {
+								if bi, ok := c.Call.Value.(*ssa.Builtin); ok && bi.Name() == "len" && len(c.Call.Args) == 1 {
+									if t, ok := fr.vals[c.Call.Args[0]]; ok {
+										t.T = c.Call.Args[0].Type()
+										return t, true, nil
+									}
+								}
+							}
+						}
+					}
+				}
+				return Term{}, false, fmt.Errorf("%s: not a range-over-slice loop whose operand is known here", name)
+			}
 			if name == "$visited" || name == "iter" || (strings.HasPrefix(name, "iter") && isDigits(name[4:])) {
 				// the loop's own iteration state (iter), or that of the loop with ordinal N (iterN)
 				h := at
